@@ -13,6 +13,7 @@ from __future__ import annotations
 
 from typing import Any, Callable, Dict, List, Optional, Tuple, Union
 
+import scico.numpy as snp
 from scico.diagnostics import IterationStats
 from scico.numpy import Array, BlockArray
 from scico.util import Timer
@@ -65,6 +66,17 @@ def itstat_func_and_object(
     itstat_object = IterationStats(**default_itstat_options)  # type: ignore
 
     return itstat_insert_func, itstat_object
+
+
+def _all_finite(v: Union[Array, BlockArray]) -> bool:
+    """Determine whether all values of an array or block array are finite.
+
+    Note that :func:`scico.numpy.all` is mapped over the blocks of a
+    :class:`.BlockArray` rather than reducing over all of them (giving
+    a block array, which is always truthy), so the test is expressed
+    via the full reduction :func:`scico.numpy.any`.
+    """
+    return not snp.any(snp.logical_not(snp.isfinite(v)))
 
 
 class Optimizer:
